@@ -399,9 +399,11 @@ theorem html_only_never_in_plain_xml (c : Ctx) (l : Loc) (e : Elem) (A : List Se
   rw [matchList]
   simp [h]
 
-/-- For a list that is not HTML-only the document type plays no role at this level. -/
+/-- For a list that is not HTML-only the document type plays no role at this level.
+    (`!A.isEmpty`: Python's `match = False` is only overwritten inside the loop, so an empty list
+    returns `False` even when negated.) -/
 theorem not_html_only (c : Ctx) (l : Loc) (e : Elem) (A : List Sel) (n : Bool) :
-    matchList c l e (.mk A n false) = (matchAny c l e A != n) := by
+    matchList c l e (.mk A n false) = (!A.isEmpty && (matchAny c l e A != n)) := by
   rw [matchList]
   simp
 
@@ -410,7 +412,8 @@ theorem not_html_only (c : Ctx) (l : Loc) (e : Elem) (A : List Sel) (n : Bool) :
 theorem html_only_in_html (c : Ctx) (l : Loc) (e : Elem) (A : List Sel) (n : Bool)
     (h : c.isHtml = true) :
     matchList c l e (.mk A n true) =
-      (matchAny { c with namespaces := [("html".toStr, NS_XHTML)], iframeRestrict := true } l e A != n) := by
+      (!A.isEmpty &&
+        (matchAny { c with namespaces := [("html".toStr, NS_XHTML)], iframeRestrict := true } l e A != n)) := by
   rw [matchList]
   simp [h]
 
